@@ -171,4 +171,52 @@ theorem burst_round_robin {cfg : Cfg} (ok : CfgOk cfg) : ∀ (cs : List Conn) (s
       rw [Nat.add_mod, Nat.mod_mod, ← Nat.add_mod]; congr 1; omega
 
 
+/-- the first worker marked available at or after slot `p`, looking at most `k` slots (cyclically) -/
+def firstAvail (n : Nat) (avail : Nat → Bool) : Nat → Nat → Option Nat
+  | 0, _ => none
+  | k + 1, p => if avail p then some p else firstAvail n avail k ((p + 1) % n)
+
+theorem firstAvail_some {n : Nat} {avail : Nat → Bool} (hn : 0 < n) :
+    ∀ (k p w : Nat), p < n → firstAvail n avail k p = some w → avail w = true ∧ w < n := by
+  intro k; induction k with
+  | zero => intro p w _ h; cases h
+  | succ k ih =>
+    intro p w hp h
+    simp only [firstAvail] at h
+    split at h
+    · rename_i hav; cases h; exact ⟨hav, hp⟩
+    · exact ih _ w (Nat.mod_lt _ hn) h
+
+/-- a state that differs only in the cursor is as good -/
+theorem AccInv.setCursor {cfg s} (h : AccInv cfg s) (n : Nat) (hn : n < cfg.nIdx) : AccInv cfg { s with next := n } :=
+  ⟨goodC_next h.good n hn, h.pend, h.sched⟩
+
+/-- **Round robin skips exactly the unavailable workers**: `accept_one` dispatches the connection to the first
+worker marked available at or after the cursor (cyclically) and leaves the cursor right behind it — whatever
+other threads do at the yield point of the send (fault-free regime). -/
+theorem acceptOne_first_available {cfg : Cfg} (ok : CfgOk cfg) : ∀ (k fuel : Nat) (s : St) (c : Conn) (w : Nat),
+    AccInv cfg s → s.fault = none → firstAvail cfg.nIdx s.avail k s.next = some w →
+    (acceptOne cfg (k + fuel) s c).dispatched = s.dispatched ++ [(c, w)] ∧
+    (acceptOne cfg (k + fuel) s c).next = (w + 1) % cfg.nIdx := by
+  intro k; induction k with
+  | zero => intro fuel s c w _ _ h; cases h
+  | succ k ih =>
+    intro fuel s c w h hnf hf
+    have hn : s.next < cfg.nIdx := h.good.1.next_lt
+    obtain ⟨hwa, hwn⟩ := firstAvail_some ok.pos (k + 1) s.next w hn hf
+    have e : k + 1 + fuel = (k + fuel) + 1 := by omega
+    simp only [firstAvail] at hf
+    split at hf
+    · rename_i hav
+      cases hf
+      rw [e]
+      exact acceptOne_dispatches_to_cursor ok (k + fuel) s c h hnf hav
+    · rename_i hav
+      have hav' : s.avail s.next = false := by simpa using hav
+      have hany : anyAvail cfg s = true := by
+        unfold anyAvail; exact List.any_eq_true.mpr ⟨w, List.mem_range.mpr hwn, hwa⟩
+      rw [e, acceptOne_skips_unavailable ok (k + fuel) s c h hnf hav' hany]
+      have h2 := h.setCursor ((s.next + 1) % cfg.nIdx) (Nat.mod_lt _ ok.pos)
+      exact ih fuel { s with next := (s.next + 1) % cfg.nIdx } c w h2 hnf hf
+
 end ActixNet.Srv
